@@ -143,6 +143,21 @@ class ActorInterp(Interp):
             out[g] = has
         return out
 
+    def is_cached(self, key: Any) -> bool:
+        """Whether self._system_bounds has an entry for the group (one answer per run)."""
+        if key in self.cache:
+            return True
+        if "cached" not in self.memo:  # nothing else writes the cache during the run
+            self.memo["cached"] = self.choose(2, "no system bounds cached yet") == 0
+        return bool(self.memo["cached"])
+
+    def subscribers(self, group: str) -> dict[Any, Any] | None:
+        """The {priority: sender} entry of the group's subscription table, None if absent."""
+        if group not in self.memo:
+            self.memo[group] = {Sym(f"priority_{group}"): Obj("Sender", group=group)} \
+                if self.choose(2, f"no {group} subscribers") == 0 else None
+        return self.memo[group]
+
     def self_obj(self) -> Obj:
         return Obj("self")
 
@@ -255,7 +270,15 @@ class ActorInterp(Interp):
     def get_item(self, base: Any, key: Any, node: ast.AST) -> Any:
         if isinstance(base, Obj) and base.cls == "BoundsCache":
             self.same_ids(key, "self._system_bounds[...]")
-            return self.system_bounds(key)
+            if self.memo.get("cached") is False and key not in self.cache:
+                raise _Raise("KeyError", node)  # a run in which the entry is known to be absent
+            return self.system_bounds(key)      # (a bare subscript asserts that the entry exists)
+        if isinstance(base, Obj) and base.cls == "Subs":
+            self.same_ids(key, f"{base.fields['name']} subscriptions[...]")
+            subs = self.subscribers(base.fields["name"])
+            if subs is None:
+                raise _Raise("KeyError", node)
+            return subs
         if isinstance(base, tuple) and base and base[0] == "global":
             return base  # Bounds[Power](...) is Bounds(...)
         return super().get_item(base, key, node)
@@ -290,22 +313,16 @@ class ActorInterp(Interp):
             if not pos:
                 raise AnalysisError("self._system_bounds.get() call shape not recognised")
             self.same_ids(pos[0], "self._system_bounds.get(...)")
-            if pos[0] in self.cache:
-                return self.cache[pos[0]]
-            if "cached" not in self.memo:  # one answer per run: nothing else writes the cache
-                self.memo["cached"] = self.choose(2, "no system bounds cached yet") == 0
-            if self.memo["cached"]:
+            if self.is_cached(pos[0]):
                 return self.system_bounds(pos[0])
             return pos[1] if len(pos) > 1 else kw.get("default")
         if tag == "subsget":
             if not pos:
                 raise AnalysisError("subscriptions.get() call shape not recognised")
             self.same_ids(pos[0], f"{fn[1]} subscriptions.get(...)")
-            if fn[1] not in self.memo:
-                self.memo[fn[1]] = {Sym(f"priority_{fn[1]}"): Obj("Sender", group=fn[1])} \
-                    if self.choose(2, f"no {fn[1]} subscribers") == 0 else None
-            if self.memo[fn[1]] is not None:
-                return self.memo[fn[1]]
+            subs = self.subscribers(fn[1])
+            if subs is not None:
+                return subs
             return pos[1] if len(pos) > 1 else None
         if tag == "reqsend":
             if len(pos) != 1 or kw:
@@ -417,6 +434,12 @@ class ActorInterp(Interp):
         return super().unaryop(op, v, node)
 
     def contains(self, container: Any, item: Any, node: ast.AST) -> bool:
+        if isinstance(container, Obj) and container.cls == "BoundsCache":
+            self.same_ids(item, "`in self._system_bounds`")
+            return self.is_cached(item)
+        if isinstance(container, Obj) and container.cls == "Subs":
+            self.same_ids(item, f"`in` {container.fields['name']} subscriptions")
+            return self.subscribers(container.fields["name"]) is not None
         if isinstance(container, (list, tuple)):
             # `x in seq` tests identity first, then equality
             return any(x is item or self.concrete_eq(item, x, node) for x in container)
